@@ -16,8 +16,8 @@ from vlib.verdict import Case
 
 PROPERTY = 'C01'
 MANIFEST = {
- 'level_text': 'Lean 4 theorems about a model of Limnoria\'s capability gate, for all database states, callers, channels and command paths: a caller who is not a recognised, non-ignored owner is refused every command of the plugin named Owner whenever -owner is a default capability (for a registered caller even without it), same for any plugin P with -p in the defaults (Admin); a caller holding -Y, -P, -P.X or -P.X.Y globally or in the message\'s channel never reaches the command; the gate allows exactly when every one of its checks allows; a wrapped command whose spec has a capability converter at top level is not reached when the capability check fails, whatever the other converters do; an ignored caller is dropped before tokenising; a configuration write passes only with the capability Config.getCapability computes (owner, or #chan,op for op-settable channel values) and never for read-only names; setting supybot.capabilities always leaves -owner in the set. Kernel-checked; the command inventory (every bundled command with its wrap spec), the call graph around _callCommand and the shape of the gate code are regenerated from /repo on every run and checked against committed obligations; the model is tied to the code by a differential run on a live bot (real Irc, real plugins, production capability path) over every command x caller role x addressing form x wrapper, which also evaluates the property statement itself (state snapshot unchanged, body not run, at most one error reply, silence when ignored).',
- 'level_note': 'Trusted: Lean kernel; axioms propext/Classical.choice/Quot.sound only; harness/extractors/commands.py; the correspondence harness (roles, generators, snapshot) and the C03 capability model it builds on (owned by C03, tied to ircdb.checkCapability there and again here through every gate decision). Modelled and proved: checkCommandCapability, the _callCommand prefix loop, capability converters + getChannel + the sequential spec driver, ircdb.checkIgnored/IgnoresDB.checkIgnored as used by Owner.doPrivmsg, Config.getCapability/isReadOnly/checkCanSetValue, DefaultCapabilities.setValue. Exercised only (not proved): the bodies of the ~500 commands, the other converters (assumed free of privileged side effects; the snapshot comparison on denied calls would show one), tokenising/nesting/alias expansion (they only feed (prefix, channel, plugin, path, args) to the gate; C13/C14), threads.',
+ 'level_text': 'Lean 4 theorems about a model of Limnoria\'s capability gate, for all database states, callers, channels, plugin names and command paths: the prefix loop of _callCommand allows exactly when every one of its checks (Y, P, P.X, P.X.Y) allows (gate_allow_iff), and a plugin whose name does not lower-case to its canonical name is refused wholesale; a caller for whom -Y, -P, -P.X or -P.X.Y answers true, globally or scoped to the message\'s channel, never reaches the command (gate_forbidden, gate_forbidden_channel); a caller who is not a recognised non-ignored owner is refused every command of a plugin named Owner whenever -owner is a default capability, and the reply names owner (gate_antiowner, gate_antiowner_reply), same for any plugin P with -p among the defaults (gate_antiplugin, Admin instance); a wrapped command with owner/admin/checkCapability/checkCapabilityButIgnoreOwner/op/halfop/voice/checkChannelCapability at top level of its spec is reached only if that check answered true for the channel getChannel chose, whatever the other converters do (converter_guard*, chancap_first_channel, invoke_body_requires, owner_plugin_body_needs_owner, guarded_body_needs_capability); a caller ignored globally (ignore flag, ignores database, defaultIgnore) or by the recipient channel (ignore, ban, lobotomy) is dropped before anything is tokenised, trusted users never (ignored_silent, channel_ignored_silent, received_dispatch_requires, ...); Config writes pass only with owner, or #chan,op when every group on the path is op-settable, never for read-only names (config_write_guard); assigning supybot.capabilities always leaves -owner in and owner out (defaults_antiowner_not_owner); the lazily created channel record changes no decision (gate_touch). Kernel-checked. The command inventory (every bundled command with its wrap spec), the committed list of privileged commands, the call graph around _callCommand/Proxy, the mutators of the default capability set and the shape of the gate code are regenerated from /repo on every run and checked against committed obligations (required_present, required_rows_guarded, inventory_names_valid, plugin_names_canonical, callgraph_ok, defaults_mutators_ok, gate_shape_ok, shipped_defaults_ok). The model is tied to the code by a differential run on a live bot (real Irc, real plugins, production capability path, world.testing off): every command x caller role x addressing form x wrapper (incl. Aka, Alias, apply, let, cif, scheduler replays fired by a virtual clock, also after the scheduling caller lost the capability), configuration writes, assignments of supybot.capabilities, ignore variants; the same run evaluates the property statement itself on the implementation (state snapshot unchanged, command body not run, at most one error reply, silence when ignored).',
+ 'level_note': 'Trusted: Lean kernel; axioms propext/Classical.choice/Quot.sound only; harness/extractors/commands.py; the correspondence harness (role construction, database copy sent to the model, snapshot, reply classification, callCommand shim and body logging) and the C03 capability model it builds on (owned by C03; every gate decision here re-checks it against the real ircdb.checkCapability). Modelled and proved: checkCommandCapability, the _callCommand prefix loop, the capability converters + getChannel + the sequential spec driver, ircdb.checkIgnored / IgnoresDB.checkIgnored / IrcChannel.checkIgnored as used by PluginMixin.__call__ and Owner.doPrivmsg, Config.getCapability/isReadOnly/checkCanSetValue, DefaultCapabilities.setValue. Exercised only (not proved): the bodies of the ~500 commands; converters other than the capability ones (an arbitrary oracle in the theorems; assumed free of privileged side effects, which the snapshot comparison on refused calls would show); tokenising, addressing, nesting, alias expansion (they only produce the (prefix, channel, plugin, path, args) tuple the gate is a function of; C13/C14); threads; the flood guard of Owner.doPrivmsg (switched off). Not claimed: that every command which OUGHT to be privileged carries a converter (the committed list Required.lean states which do); Owner.defaultcapability can remove -owner from the defaults (owner-only, inventory obligation defaults_mutators_ok; C02). A prefix that is not nick!user@host is looked up as a user name (only a server can send one; exercised as role byname, sender recognition is C04).',
  'technique': 'Lean 4 proof (case analysis over the decision procedure, induction over the check list / spec) + inventory extraction + differential correspondence on a live bot',
  'design_ref': 'DESIGN.md §6 C01',
 }
@@ -39,9 +39,9 @@ TRUSTED = ['Lean 4.33.0 kernel; axioms ⊆ {propext, Classical.choice, Quot.soun
            'harness/c01.py: role construction, database copy sent to the model, state snapshot, reply classification, body call log (sys.setprofile), callCommand shim',
            'Python asserts enabled']
 RULE = ('every command of every loaded plugin (extracted table rows + run-time-only commands) x caller roles (owner, admin, #c,op, registered, '
-        'unregistered, ignored user, ignores-db hostmask, secure user from a wrong hostmask, user / channel / defaults holding an anti-capability '
+        'unregistered, ignored user, ignores-db hostmask, secure user from a wrong hostmask, a bare user name as prefix, user / channel / defaults holding an anti-capability '
         'for -Y / -P / -P.X / -P.X.Y, capabilities.default off) x addressing form (prefix char, nick, private, nick at end) x wrapper (direct, '
-        'plugin-qualified, nested, piped, Aka, Alias, apply, let, cif, scheduled); a case is non-trivial when it exercised a deny / ignore / '
+        'plugin-qualified, nested inside echo, with a nested argument, piped, Aka, Alias, apply, let, cif, scheduled); a case is non-trivial when it exercised a deny / ignore / '
         'converter branch; distinct = distinct (row, role, form, wrapper, args)')
 
 PLUGINS_QUICK = ['Owner', 'Misc', 'User', 'Admin', 'Config', 'Channel', 'Utilities', 'Scheduler', 'Alias', 'Aka',
@@ -225,6 +225,7 @@ ROLES = {
     'ignoredb': 'igd!i@igd.host',
     'secure':   'sec!s@wrong.host',
     'anti':     'ant!a@anti.host',
+    'byname':   'vown',          # a prefix that is not nick!user@host is looked up as a user NAME (server-made prefixes)
 }
 
 DEFAULT_CAPS = []
@@ -392,7 +393,7 @@ def deliver(b, prefix, target, text):
 # invocation texts
 # ------------------------------------------------------------------------------------------
 FORMS = ['char', 'nick', 'private', 'atend']
-WRAPPERS = ['direct', 'qualified', 'nested', 'piped', 'aka', 'alias', 'apply', 'let', 'cif']
+WRAPPERS = ['direct', 'qualified', 'nested', 'outer', 'piped', 'aka', 'alias', 'apply', 'let', 'cif']
 WRAPPER_CMDS = {('Utilities', ('echo',)), ('Utilities', ('apply',)), ('Utilities', ('let',)),
                 ('Conditional', ('cif',)), ('Conditional', ('ceq',)), ('Aka', ('vtrun',)), ('Alias', ('vtrun2',)),
                 ('Scheduler', ('add',)), ('Scheduler', ('scheduler', 'add'))}
@@ -415,6 +416,9 @@ def command_text(plugin, path, args, wrapper, qualified):
         text = core
     elif wrapper == 'nested':
         text = 'echo [%s]' % core
+    elif wrapper == 'outer':
+        text = '%s [echo zq]' % core            # the gated command is the outer one; its argument comes from a nested call
+        a = a + ['zq']
     elif wrapper == 'piped':
         text = 'echo zz | %s' % core
         a = a + ['zz']
@@ -454,7 +458,7 @@ def address(form, text):
 # the oracle's own notion of "lacks the capability" (by construction of the roles, not the model)
 # ------------------------------------------------------------------------------------------
 def role_holds(role, kind, cap, channel):
-    if role == 'owner':
+    if role in ('owner', 'byname'):
         return kind != 'capNoOwner'
     if role == 'admin':
         return kind == 'cap' and cap == 'admin'
@@ -569,9 +573,9 @@ def explore(ctx, b, w, table, required, n_extra):
     def expected_deny(plugin, path, spec, role, channel_of_check):
         """by construction of the roles: must this call be refused?  (None = no claim)"""
         reasons = []
-        if plugin == 'Owner' and role != 'owner':
+        if plugin == 'Owner' and role not in ('owner', 'byname'):
             reasons.append('Owner command, caller is not owner')
-        if plugin == 'Admin' and role not in ('owner', 'admin'):
+        if plugin == 'Admin' and role not in ('owner', 'admin', 'byname'):
             reasons.append('Admin command, caller is not admin')
         for kind, cap in req_by_row.get((plugin, path), []) + [(k, a) for k, a in (spec if plugin == 'VtGate' else []) if k in ('cap', 'capNoOwner', 'chancap')]:
             if not role_holds(role, kind, cap, channel_of_check):
@@ -583,7 +587,7 @@ def explore(ctx, b, w, table, required, n_extra):
     combos = [(f, wr) for f in FORMS for wr in WRAPPERS]
     have = set(cb.name() for cb in irc.callbacks)
     def wrapper_ok(wr):
-        return not ((wr in ('nested', 'piped', 'apply', 'let') and 'Utilities' not in have) or (wr == 'aka' and 'Aka' not in have)
+        return not ((wr in ('nested', 'outer', 'piped', 'apply', 'let') and 'Utilities' not in have) or (wr == 'aka' and 'Aka' not in have)
                     or (wr == 'alias' and 'Alias' not in have) or (wr == 'cif' and 'Conditional' not in have))
     combos = [c for c in combos if wrapper_ok(c[1])]
     k = 0
@@ -591,7 +595,7 @@ def explore(ctx, b, w, table, required, n_extra):
         m = loaded[(plugin, path)]
         spec, ae = row_spec(plugin, path, m)
         gated = (plugin in ('Owner', 'Admin', 'VtGate') or (plugin, path) in req_by_row)
-        for role in base_roles:
+        for role in (base_roles + ['byname'] if plugin in ('Owner', 'Admin', 'VtGate') else base_roles):
             reps = [('char', 'direct'), ('private', 'qualified')] if gated else [('char', 'direct')]
             if ctx.thorough and gated:
                 reps = combos[k % 3::3]       # every (form, wrapper) pair is met by a third of the roles of each row
